@@ -17,6 +17,7 @@ CONSTANTS Ent,            \* subset of AllEnt
           Staged,         \* simulation only: TRUE = an action kind is drawn first (uniform over kinds, not over arguments)
           InitAll,        \* entities that start in every possible state (the others: absent or one fixed state);
                           \* {} = start from the empty state machine
+          SnapModes,      \* how a snapshot used as value treats the target's attributes: subset of {"keep", "copy"}
           DelUnderShadow  \* generator mask: FALSE = no `del` while the name is a Python variable
 VARIABLES h, snap, py, svc, clk, res, lastAct, want
 vars == <<h, snap, py, svc, clk, res, lastAct, want>>
@@ -80,7 +81,14 @@ GetAttr    == Turn("getattr") /\ \E e \in Ent : Do([k |-> "getattr", e |-> e])
 Names      == Turn("names") /\ \E d \in AllDom \cup {"*"} : Do([k |-> "names", d |-> d])
 ExtSet     == Turn("extset") /\ \E e \in Ent, v \in SVals, new \in AttrLists : Do([k |-> "extset", e |-> e, v |-> v, new |-> new])
 ExtRemove  == Turn("extremove") /\ \E e \in Ent : Has(h, e) /\ Do([k |-> "extremove", e |-> e])
-Capture    == Turn("capture") /\ \E e \in Ent : Do([k |-> "capture", e |-> e])
+Capture    == Turn("capture") /\ \E e \in Ent, via \in Vias : Do([k |-> "capture", e |-> e, via |-> via])
+\* the snapshot as the value of a write, a field of the snapshot read later, an identical re-write
+UseSnap    == Turn("usesnap") /\ \E e \in Ent, how \in {"assign", "set", "setkw", "setnew"}, l \in AttrLists, mode \in SnapModes :
+                 /\ (how \in {"assign", "set"} => l = <<>>) /\ (how = "setkw" => l # <<>>) /\ (how = "setnew" => mode = "copy")
+                 /\ Do([k |-> "usesnap", e |-> e, how |-> how, mode |-> mode,
+                        new |-> IF how = "setnew" THEN l ELSE <<>>, kw |-> IF how = "setkw" THEN l ELSE <<>>])
+SnapField  == Turn("snapfield") /\ \E n \in Attrs \cup Virtual : Do([k |-> "snapfield", n |-> n])
+Touch      == Turn("touch") /\ \E e \in Ent, how \in {"assign", "setnone", "setall", "ext"} : Do([k |-> "touch", e |-> e, how |-> how])
 CheckSnap  == Turn("checksnap") /\ Do([k |-> "checksnap"])
 BindVar    == Turn("bindvar") /\ \E d \in PyDoms : \E o \in PyObjs(d) : Do([k |-> "bindvar", d |-> d, at |-> o])
 UnbindVar  == Turn("unbindvar") /\ \E d \in PyDoms : Do([k |-> "unbindvar", d |-> d])
@@ -93,10 +101,11 @@ LocalDel   == Turn("localdel") /\ \E e \in Ent : DomOf(e) \in PyDoms /\ Do([k |-
 OpStep == \/ Read \/ ReadAttr \/ Assign \/ AssignAttr \/ SetAttr \/ StateSet \/ Del \/ Delete \/ DelAttr
           \/ DeleteAttr \/ Exist \/ ExistAttr \/ GetAttr \/ Names \/ ExtSet \/ ExtRemove \/ Capture \/ CheckSnap
           \/ BindVar \/ UnbindVar \/ RegSvc \/ UnregSvc \/ LocalRead \/ LocalAssign \/ LocalDel
+          \/ UseSnap \/ SnapField \/ Touch
 \* simulation only: draw the kind of the next operation first (redrawn when nothing of that kind is enabled)
 Kinds == {"read", "readattr", "assign", "assignattr", "setattr", "set", "del", "delete", "delattr", "deleteattr",
           "exist", "existattr", "getattr", "names", "extset", "extremove", "capture", "checksnap", "bindvar",
-          "unbindvar", "regsvc", "unregsvc", "localread", "localassign", "localdel"}
+          "unbindvar", "regsvc", "unregsvc", "localread", "localassign", "localdel", "usesnap", "snapfield", "touch"}
 Choose == /\ Staged /\ clk < MaxOps /\ (want = "" \/ ~ENABLED OpStep)
           /\ \E k \in Kinds : want' = k
           /\ lastAct' = [k |-> "choose"] /\ UNCHANGED <<h, snap, py, svc, clk, res>>
@@ -112,7 +121,21 @@ AttrOf(s, n) == IF n \in AttrNames(s) THEN AttrVal(s, n) ELSE NoVal
 ByString == {"setattr", "set", "delete", "deleteattr"}            \* string-named entry points ignore Python names
 
 \* a captured snapshot never changes afterwards, whatever happens to the entity
-SnapshotImmutable == [][ (Op.k # "capture" => snap' = snap) /\ (Op.k = "checksnap" => res' = snap) ]_vars
+SnapshotImmutable == [][ (Op.k # "capture" \/ ~Ok => snap' = snap) /\ (Op.k = "checksnap" => res' = snap) ]_vars
+\* ... also after it was used as a value; every field read from it later is the captured one
+SnapshotAsValue ==
+  [][ /\ (Op.k = "usesnap" => snap' = snap /\ h'[Op.e].v = snap.v /\ OthersSame(Op.e) /\ res' = NoneR
+                              /\ (Op.how = "setnew" => h'[Op.e].a = Pairs(Op.new)))
+      /\ (Op.k = "snapfield" => snap' = snap /\ h' = h /\
+            res' = IF Op.n = "entity_id" THEN [k |-> "id", e |-> snap.id]
+                   ELSE IF Op.n = "last_changed" THEN [k |-> "stamp", n |-> snap.lc]
+                   ELSE IF Op.n = "last_updated" THEN [k |-> "stamp", n |-> snap.lu]
+                   ELSE IF Op.n = "last_reported" THEN [k |-> "stamp", n |-> snap.lr]
+                   ELSE IF \E p \in snap.a : p[1] = Op.n THEN [k |-> "val", v |-> (CHOOSE p \in snap.a : p[1] = Op.n)[2]]
+                   ELSE [k |-> "exc", x |-> "AttributeError"]) ]_vars
+\* an identical re-write is HA's "reported" case: only last_reported moves (and a later read shows exactly that)
+TouchOnlyReports ==
+  [][ Op.k = "touch" => h'[Op.e] = [h[Op.e] EXCEPT !.lr = clk'] /\ OthersSame(Op.e) /\ snap' = snap ]_vars
 \* a read yields the current value as a snapshot carrying attributes and the virtual fields
 ReadIsCurrentSnapshot ==
   [][ Op.k = "read" /\ (Op.via = "get" \/ ToState(Op.e)) =>
@@ -172,9 +195,12 @@ W_NoReportedOnly   == \A e \in Ent : h[e].lr = h[e].lu
 W_NoShadowedState  == ~(\E e \in Ent : py[DomOf(e)].b /\ e \in svc /\ Has(h, e))
 W_NoAttrError      == ~(res.k = "exc" /\ res.x = "AttributeError")
 W_NoKeptValue      == ~(lastAct.k = "set" /\ ~lastAct.hasv /\ lastAct.kw # <<>>)
+W_NoStaleReportRead == ~(lastAct.k = "read" /\ res.k = "state" /\ res.lr # res.lu)
+W_NoSnapUsedAsValue == ~(lastAct.k = "usesnap" /\ res = NoneR)
 \* all witnesses in one run (-workers 1, no VIEW): a register per witness, set when its negation is reached
-Witnesses == <<W_SnapNeverStale, W_NoReplaceDrops, W_NoReportedOnly, W_NoShadowedState, W_NoAttrError, W_NoKeptValue>>
-ASSUME \A i \in 1..6 : TLCSet(i, 0)
-WitnessTrack == \A i \in 1..6 : Witnesses[i] \/ TLCSet(i, 1)
-WitnessPost  == \A i \in 1..6 : TLCGet(i) = 1 \/ PrintT("WITNESS-MISSING " \o ToString(i))
+Witnesses == <<W_SnapNeverStale, W_NoReplaceDrops, W_NoReportedOnly, W_NoShadowedState, W_NoAttrError, W_NoKeptValue,
+              W_NoStaleReportRead, W_NoSnapUsedAsValue>>
+ASSUME \A i \in 1..8 : TLCSet(i, 0)
+WitnessTrack == \A i \in 1..8 : Witnesses[i] \/ TLCSet(i, 1)
+WitnessPost  == \A i \in 1..8 : TLCGet(i) = 1 \/ PrintT("WITNESS-MISSING " \o ToString(i))
 =============================================================================
